@@ -65,6 +65,9 @@ pub struct Engine {
     pub fam: &'static str,
     pub cur_tables: u64,
     pub states_seen: u64,
+    /// Some(k): a soak run is in progress and k steps of its cycle have been executed (violations are reported with the
+    /// compact history "soak:<k>")
+    pub soak_steps: Option<u64>,
 }
 
 const PROPS: [&str; 6] = ["C01", "C02", "C09", "C10", "C11", "C20"];
@@ -98,7 +101,7 @@ impl Engine {
             Impl::Recursive(_) => "recursive",
             _ => "mapped/offset",
         };
-        Engine { cfg, al, acts, reps, skip, fam, cur_tables: 0, states_seen: 0 }
+        Engine { cfg, al, acts, reps, skip, fam, cur_tables: 0, states_seen: 0, soak_steps: None }
     }
 
     fn viol(&mut self, prop: &'static str, sig: &str, hist: &[u16], ai: Option<usize>, detail: &str) {
@@ -110,7 +113,10 @@ impl Engine {
         if let Some(ai) = ai {
             idx.push(ai.to_string());
         }
-        let case = format!("mapper {} {} # {}", self.cfg.to_arg(), idx.join(","), h.join(" ; "));
+        let case = match self.soak_steps {
+            Some(k) => format!("mapper {} soak:{} # after {} steps of the soak cycle, then {}", self.cfg.to_arg(), k + 1, k, h.last().cloned().unwrap_or_default()),
+            None => format!("mapper {} {} # {}", self.cfg.to_arg(), idx.join(","), h.join(" ; ")),
+        };
         let sig = format!("{}|{}|{}", prop, sig, self.fam);
         self.reps.get_mut(prop).unwrap().viol(&sig, &case, detail);
     }
@@ -369,6 +375,43 @@ impl Engine {
         if matches!(self.cfg.imp, Impl::Recursive(_)) && st.ood && before.link_flags.values().any(|f| f & P == 0) {
             return None;
         }
+        // a level-4 entry with the PS bit (reserved there): the hardware walk itself is undefined below it, so only three things
+        // are checked for calls below such an entry, and nothing is explored beyond them: no stray access, "allocation failed"
+        // only if the allocator failed, and an error leaves every entry as it was
+        let l4_huge: Vec<usize> = (0..512).filter(|&i| Some(i) != self.skip && sim().read(L4_FRAME, i) & (P | HUGE) == (P | HUGE)).collect();
+        if !l4_huge.is_empty() {
+            if matches!(self.cfg.imp, Impl::Recursive(_)) {
+                return None;
+            }
+            let under = act_page(&act, &self.al).map_or(false, |(_, va)| l4_huge.contains(&idx(va, 4)));
+            if !under || matches!(act, Act::CleanAll | Act::CleanRange { .. }) {
+                return None;
+            }
+            let op = self.op_name(&act);
+            let snap_before: Vec<Vec<u64>> = (0..NF).filter(|&f| sim().is_table[f]).map(|f| (0..512).map(|k| sim().read(f, k)).collect()).collect();
+            let mut ast = AllocState { free: st.free.clone() };
+            let out = self.run_call(&act, &mut ast);
+            for p in PROPS {
+                self.reps.get_mut(p).unwrap().transitions += 1;
+            }
+            let s = sim();
+            if s.nstray > 0 && !s.fatal {
+                let x = s.strays[0];
+                self.viol("C09", &format!("{}|level-4-entry-with-PS|stray-access", op), &st.hist, Some(ai), &format!("host {:#x} phys {:#x} frame {}", x.addr, x.phys, x.frame));
+            }
+            if let Some(out) = out {
+                if out.oc == Oc::AllocFailed && out.requests as usize == out.given.len() {
+                    self.viol("C02", &format!("{}|got=AllocFailed|reports-FrameAllocationFailed-although-no-allocation-failed", op), &st.hist, Some(ai), &format!("{} requests, all served", out.requests));
+                }
+                if out.oc != Oc::Ok && out.given.is_empty() {
+                    let snap_after: Vec<Vec<u64>> = (0..NF).filter(|&f| sim().is_table[f]).map(|f| (0..512).map(|k| sim().read(f, k)).collect()).collect();
+                    if snap_after != snap_before {
+                        self.viol("C02", &format!("{}|got={:?}|level-4-entry-with-PS|failed-call-changed-an-entry", op, out.oc), &st.hist, Some(ai), "");
+                    }
+                }
+            }
+            return None;
+        }
         let before_s: Tree = if before.structural { before.clone() } else { walk_all_mode(sim(), self.skip, true) };
         let op = self.op_name(&act);
         // expected allocation requests from raw memory: tables are missing from the first all-zero slot downwards
@@ -424,6 +467,11 @@ impl Engine {
                     return None;
                 }
             }
+        }
+        // holds in every state: "frame allocation failed" is reported only by a call during which the allocator returned None
+        if out.oc == Oc::AllocFailed && out.requests as usize == out.given.len() {
+            self.viol("C02", &format!("{}|got=AllocFailed|reports-FrameAllocationFailed-although-no-allocation-failed", op), &st.hist, Some(ai), &format!("{} requests, all served", out.requests));
+            clean = false;
         }
         if is_map && out.requests != exp_req {
             self.viol("C09", &format!("{}|non-present-entries|allocation-requests={}|expected={}-(every-entry-on-the-walk-that-is-non-zero-counts-as-an-existing-table)", op, out.requests, exp_req), &st.hist, Some(ai), "");
@@ -790,10 +838,46 @@ impl Engine {
         true
     }
 
+    fn check_translate_vs_walk(&mut self, st: &State) {
+        let cfg = self.cfg.clone();
+        let probes = self.al.probes_small.clone();
+        let s = sim();
+        s.begin_call();
+        let res = catch(|| {
+            on_mapper!(cfg, |m| {
+                let mut bad: Option<String> = None;
+                for &a in &probes {
+                    let exp = match walk_one(s, a) {
+                        Ok(Some((base, _, phys, _, _, _))) => Some(phys + (a - base)),
+                        Ok(None) => None,
+                        Err(_) => continue, // malformed for the hardware too (H4-corrupted states): nothing to compare
+                    };
+                    let got = m.translate_addr(VirtAddr::new(a)).map(|p| p.as_u64());
+                    if got != exp && bad.is_none() {
+                        bad = Some(format!("va {:#x}: translate_addr {:x?}, hardware walk {:x?}", a, got, exp));
+                    }
+                }
+                bad
+            })
+        });
+        s.end_call();
+        self.reps.get_mut("C01").unwrap().evals += probes.len() as u64;
+        if let Ok(Some(d)) = res {
+            let hist = st.hist.clone();
+            self.viol("C01", "translate_addr|disagrees-with-the-hardware-walk-of-the-same-memory|huge-page-with-PAT-bit", &hist, None, &d);
+        }
+    }
+
     /// per-state oracle: the implementation's translate functions against R1 on the probe addresses
     pub fn check_state(&mut self, st: &State, full: bool) {
         if st.ood {
-            return; // outside the quantified domain: translation semantics are not specified
+            // outside the quantified domain: translation semantics are not specified by R1. One thing still is: while every
+            // entry in the tables is present (the state left the domain only through the PAT bit of a huge page), the physical
+            // address the implementation translates to is the one the hardware walk of the same memory yields.
+            if st.ents.iter().all(|&(_, _, v)| v & P != 0) {
+                self.check_translate_vs_walk(st);
+            }
+            return;
         }
         let cfg = self.cfg.clone();
         let probes: Vec<u64> = if full { self.al.probes.clone() } else { self.al.probes_small.clone() };
@@ -1037,9 +1121,71 @@ fn diff_desc(t: &Tree, r1: &R1) -> String {
 }
 
 /// re-execute one recorded history (replay): "mapper <cfg> <i,j,k> # ..."
+impl Engine {
+    /// The soak cycle: one long history in which every step is legal and succeeds, repeated many times over recycled frames
+    /// (map two 4 KiB pages sharing their tables, change flags, unmap both, map/unmap a 2 MiB page, clean up). Behaviour that
+    /// depends on how often something was called (a counter that wraps, a cache that warms up) shows as a violation of the
+    /// ordinary transition oracles at step k.
+    pub fn soak(&mut self, steps: u64) {
+        let find = |acts: &Vec<(Act, u8)>, want: Act| acts.iter().position(|(a, _)| *a == want);
+        let p4: Vec<u8> = self.al.pages.iter().enumerate().filter(|(_, p)| p.0 == 0).map(|(i, _)| i as u8).collect();
+        let p2: Vec<u8> = self.al.pages.iter().enumerate().filter(|(_, p)| p.0 == 1).map(|(i, _)| i as u8).collect();
+        if p4.len() < 2 || p2.is_empty() {
+            return;
+        }
+        let (pa, pb, pc) = (p4[0], p4[1], p2[p2.len() - 1]);
+        let cycle: Vec<usize> = [
+            Act::Map { page: pa, frame: 0, flags: 0, parent: 0, sched: 0 },
+            Act::Map { page: pb, frame: 0, flags: 0, parent: 0, sched: 0 },
+            Act::Update { page: pa, flags: 1 },
+            Act::Unmap { page: pa },
+            Act::Unmap { page: pb },
+            Act::CleanAll,
+            Act::Map { page: pc, frame: 0, flags: 0, parent: 0, sched: 0 },
+            Act::Unmap { page: pc },
+            Act::CleanRange { r: 11 },
+        ]
+        .iter()
+        .filter_map(|a| find(&self.acts, *a))
+        .collect();
+        if cycle.len() != 9 {
+            return;
+        }
+        let mut st = self.initial();
+        self.restore(&st);
+        self.soak_steps = Some(0);
+        for k in 0..steps {
+            self.soak_steps = Some(k);
+            self.restore(&st);
+            let tb = walk_all_mode(sim(), self.skip, st.ood);
+            if k % 97 == 0 {
+                self.check_state(&st, false);
+            }
+            match self.step(&st, cycle[(k % 9) as usize], &tb) {
+                Some(mut ns) => {
+                    ns.hist.clear();
+                    ns.dev = 0;
+                    st = ns;
+                }
+                None => break,
+            }
+        }
+        self.soak_steps = None;
+        for p in PROPS {
+            let r = self.reps.get_mut(p).unwrap();
+            r.notes.push(format!("soak: {} steps of a 9-call cycle (map x2, update_flags, unmap x2, clean_up, map/unmap 2MiB, clean_up_addr_range) over recycled frames, all transition oracles on", steps));
+        }
+    }
+}
+
 pub fn replay(case: &str) -> Vec<Rep> {
     let t: Vec<&str> = case.split_whitespace().collect();
     let cfg = Config::parse(t[1]);
+    if let Some(k) = t.get(2).and_then(|x| x.strip_prefix("soak:")) {
+        let mut e = Engine::new(cfg);
+        e.soak(k.parse().unwrap());
+        return e.reps.into_values().collect();
+    }
     let idx: Vec<usize> = if t.len() > 2 && t[2] != "#" { t[2].split(',').filter(|x| !x.is_empty()).map(|x| x.parse().unwrap()).collect() } else { vec![] };
     let mut e = Engine::new(cfg);
     let mut st = e.initial();
@@ -1073,6 +1219,7 @@ pub fn run(a: &Args) {
     let max_states: u64 = a.extra.get(2).map(|x| x.parse().unwrap()).unwrap_or(3_000_000);
     let mut e = Engine::new(cfg);
     e.search(&bounds, a, max_states);
+    e.soak(if a.thorough() { 600_000 } else { 30_000 });
 
     for r in e.reps.values() {
         r.emit();
